@@ -894,9 +894,11 @@ func (c *Ctx) sendEffects(st *State, fr *Frame, ins ssa.Instruction, ch Term, bl
 		c.Oblige(st, fr, ins, "nonblocking", "send-nil-chan", Not(Eq(ch, IntLit(0))), "blocking send on a nil channel blocks forever")
 	}
 	c.Oblige(st, fr, ins, "nopanic", "send-closed", Not(Select(cl, ch)), "send on closed channel")
-	if blocking && len(st.heldLocks) > 0 {
+	if blocking {
 		// a blocking send inside a critical section must have room
-		c.Oblige(st, fr, ins, "nonblocking", "send-under-lock", T(SBool, "(< %s %s)", Select(ln, ch).S, Select(cp, ch).S), "send while holding a lock cannot block (channel has room)")
+		h := c.Arr(st, famHeld, ArraySort(SInt, SBool))
+		noLock := Eq(h, ConstArray(ArraySort(SInt, SBool), False))
+		c.Oblige(st, fr, ins, "nonblocking", "send-under-lock", Or(noLock, T(SBool, "(< %s %s)", Select(ln, ch).S, Select(cp, ch).S)), "send while holding a lock cannot block (channel has room)")
 	}
 	c.SetArr(st, famChLen, Store(ln, ch, T(SInt, "(+ %s 1)", Select(ln, ch).S)))
 }
